@@ -94,5 +94,7 @@ let run_case (toks : string list) (obs : (string, string list) Hashtbl.t) : stri
                  else if hex_of_bytes sch <> kv "scheme" ok || hex_of_bytes hp <> kv "hostport" ok
                          || hex_of_bytes host <> kv "host" ok then
                    Printf.sprintf "MISMATCH %s fields differ" id
+                 else if hex_of_bytes (uri_string sch hp) <> kv "str" ok then
+                   Printf.sprintf "MISMATCH %s String() differs from the model inside the modelled zone: %s" id (kv "str" ok)
                  else Printf.sprintf "AGREE %s nontrivial" id)
   | _ -> "SKIP"
